@@ -26,6 +26,7 @@ META = {
         "lists. Reference: listing = declared entries having cron or time on own-broker tasks, in order, with the entry's "
         "payload; firing a one-shot removes the first entry of that task with that time and nothing else; firing a cron entry "
         "removes nothing. states/transitions are those of the BFS in (B) plus one state per on_ready case in (A)."
+        " Entry lists of one task: all lists of 3 over {t1, t2, cron} (equal times adjacent, apart, all three); thorough: lists of 4 with at least two equal times."
     ),
     "assumptions": ["tasks are registered on fresh brokers per case; the global shared-task registry is restored after each case"],
     "required_counters": ["on_ready_cases", "label_source_task_sets", "firings"],
@@ -190,7 +191,10 @@ def task_sets(tier: str) -> List[Tuple[Tuple[str, ...], ...]]:
     for n in range(1, k + 1):
         lists += list(itertools.product(names, repeat=n))
     if tier == "quick":
-        lists += [("t1", "t1", "t2"), ("t1A", "t1", "t1"), ("cron", "t1", "t1"), ("t2", "t1", "t1A"), ("none", "t1", "cronL")]
+        lists += [("t1A", "t1", "t1"), ("t2", "t1", "t1A"), ("none", "t1", "cronL")]
+        lists += list(itertools.product(("t1", "t2", "cron"), repeat=3))  # equal times apart, adjacent, all three
+    else:
+        lists += [l for l in itertools.product(("t1", "t2", "cron"), repeat=4) if l.count("t1") >= 2]
     out: List[Tuple[Tuple[str, ...], ...]] = []
     for l1 in lists:
         out.append((l1,))
